@@ -15,10 +15,13 @@
 //!            p: panic!(String "t<k>")   q: panic with a &'static str payload "t<k>"
 //!            z: panic_any(<k> as u64), a payload that is no string: the runtime reports the fixed text
 //!               "Unknown panic occurred ..." (logged and modelled as text code 998)
+//!   boom=y (optional, Send / remote hosts): the actor's State has a destructor that PANICS once, armed when
+//!            post_stop is entered or a callback after pre_start fails, i.e. when the runtime (not the harness) is
+//!            about to drop the final state: inside the terminal event nobody receives, or at the end of the task
 //!   sup=tdef: like sup=def, but the host type does NOT override handle_supervisor_evt: the trait's own
 //!            default body runs (nothing can be logged for it)
 //!   eff    = g<n> | t | s<a>:<m> | x<a>:n | x<a>:<r> | k<a> | d<a>
-//!   op     = spawn <a> | send <a> <m> | stop <a> n|<r> | kill <a> | drain <a> | open <g> | abort <a> | settle
+//!   op     = spawn <a> | send <a> <m> | sends <a> <m> (the same message in wire form: ActorCell::send_serialized) | stop <a> n|<r> | kill <a> | drain <a> | open <g> | abort <a> | settle
 //!
 //! Modes (default `send` = everything above, on the one paused runtime):
 //!   local-adapter  every scripted actor is a Send `Actor + Default` (`HL`) hosted on ONE shared
@@ -103,6 +106,8 @@ struct Cfg {
     sup: Option<Script>,
     /// sup=tdef: the trait's own default supervision handler (host without override)
     tdef: bool,
+    /// boom=y: the State's destructor panics (once) when the runtime drops the final state
+    boom: bool,
     link: Option<usize>,
 }
 
@@ -123,6 +128,10 @@ struct Ctx {
     finals: Mutex<HashMap<usize, u64>>,
     /// ActorTerminated events whose boxed state was not the subject's final state
     bad_state: Mutex<Vec<String>>,
+    /// boom=y actors: the switch of their State's panicking destructor
+    boom: Mutex<HashMap<usize, Arc<AtomicBool>>>,
+    /// actors whose join handle completed with a panic
+    join_panic: Mutex<Vec<usize>>,
 }
 
 /// State of the Send / remote hosts: reported to the supervisor on a graceful exit
@@ -131,6 +140,17 @@ struct Ctx {
 struct HState {
     me: usize,
     n: u64,
+    boom: Option<Arc<AtomicBool>>,
+}
+impl Drop for HState {
+    fn drop(&mut self) {
+        if let Some(b) = &self.boom {
+            // at most once, and never while another panic is unwinding (that would abort the process)
+            if b.swap(false, Ordering::SeqCst) && !std::thread::panicking() {
+                panic!("state destructor of actor {}", self.me);
+            }
+        }
+    }
 }
 
 impl Ctx {
@@ -158,6 +178,20 @@ impl Ctx {
     }
     fn cell(&self, a: usize) -> Option<ActorCell> {
         self.cells.lock().unwrap().get(&a).cloned()
+    }
+    /// the loop task's join handle completed: normally (TJoin), cancelled (the harness aborted it), or
+    /// carrying a panic (reported with the case as `(* JOIN-PANIC .. *)`)
+    fn joined(&self, a: usize, r: Result<(), tokio::task::JoinError>) {
+        match r {
+            Ok(()) => self.log(format!("TJoin {a}")),
+            Err(e) if e.is_panic() => self.join_panic.lock().unwrap().push(a),
+            Err(_) => {}
+        }
+    }
+    fn arm_boom(&self, a: usize) {
+        if let Some(b) = self.boom.lock().unwrap().get(&a) {
+            b.store(true, Ordering::SeqCst);
+        }
     }
     fn index_of(&self, id: ActorId) -> u64 {
         self.ids.lock().unwrap().get(&id).map(|x| *x as u64).unwrap_or(999)
@@ -266,6 +300,9 @@ async fn run_script(ctx: &Arc<Ctx>, me: usize, cb: String, script: &Script) -> R
     }
     guard.done = true;
     ctx.log(format!("TExit {me} {cb} {}", fin_str(&script.1)));
+    if cb == "PostStop" || (cb != "PreStart" && !matches!(script.1, Fin::Ok)) {
+        ctx.arm_boom(me); // the runtime drops the final state from here on
+    }
     match script.1 {
         Fin::Ok => Ok(()),
         Fin::Err(t) => Err(format!("t{t}").into()),
@@ -339,6 +376,9 @@ impl Me {
     /// the boxed state of a graceful ActorTerminated must be the subject's own final state
     fn check_state(&self, who: usize, st: &mut ractor::actor::messages::BoxedState) {
         let verdict = if let Ok(h) = st.take::<HState>() {
+            if let Some(b) = &h.boom {
+                b.store(false, Ordering::SeqCst); // the harness itself drops this copy
+            }
             let want = self.ctx.finals.lock().unwrap().get(&who).cloned().unwrap_or(0);
             if h.me == who && h.n == want {
                 None
@@ -415,7 +455,8 @@ macro_rules! send_host {
                     self.0.ctx.ids.lock().unwrap().insert(myself.get_id(), self.0.me);
                 }
                 self.0.cb_pre_start().await?;
-                Ok(HState { me: self.0.me, n: 0 })
+                let boom = self.0.ctx.boom.lock().unwrap().get(&self.0.me).cloned();
+                Ok(HState { me: self.0.me, n: 0, boom })
             }
             async fn post_start(&self, _myself: ActorRef<HMsg>, st: &mut HState) -> Result<(), ActorProcessingErr> {
                 self.0.bump(st);
@@ -654,6 +695,7 @@ fn parse_cfg(s: &str) -> Cfg {
     let mut stop = None;
     let mut sup = None;
     let mut tdef = false;
+    let mut boom = false;
     let mut link = None;
     for kv in s.split_whitespace() {
         let (k, v) = kv.split_once('=').unwrap();
@@ -666,6 +708,7 @@ fn parse_cfg(s: &str) -> Cfg {
                 sup = if v == "def" || v == "tdef" { None } else { Some(parse_script(v)) }
             }
             "link" => link = if v == "-" { None } else { Some(u(v) as usize) },
+            "boom" => boom = v == "y",
             _ => panic!("bad cfg key {k}"),
         }
     }
@@ -675,6 +718,7 @@ fn parse_cfg(s: &str) -> Cfg {
         stop: stop.unwrap(),
         sup,
         tdef,
+        boom,
         link,
     }
 }
@@ -980,7 +1024,14 @@ async fn run_case(line: &str) -> String {
         loop_abort: Mutex::new(HashMap::new()),
         finals: Mutex::new(HashMap::new()),
         bad_state: Mutex::new(vec![]),
+        boom: Mutex::new(HashMap::new()),
+        join_panic: Mutex::new(vec![]),
     });
+    for (a, c) in actors.iter().enumerate() {
+        if c.boom {
+            ctx.boom.lock().unwrap().insert(a, Arc::new(AtomicBool::new(false)));
+        }
+    }
     let local = if matches!(mode, Mode::LocalAdapter | Mode::LocalNative) { Some(Local::new().await) } else { None };
     let root: Option<ActorCell> = if mode == Mode::RemoteShim {
         let (r, _h) = Actor::spawn(None, Root, ()).await.unwrap_or_else(|e| infra(&format!("root actor: {e}")));
@@ -1024,9 +1075,7 @@ async fn run_case(line: &str) -> String {
                         Ok((_aref, inner)) => {
                             ctx2.loop_abort.lock().unwrap().insert(a, inner.abort_handle());
                             ctx2.log(format!("TSpawnRet {a} true"));
-                            if inner.await.is_ok() {
-                                ctx2.log(format!("TJoin {a}"));
-                            }
+                            ctx2.joined(a, inner.await);
                         }
                         Err(_) => ctx2.log(format!("TSpawnRet {a} false")),
                     }
@@ -1046,6 +1095,15 @@ async fn run_case(line: &str) -> String {
                         });
                         ctx.start_abort.lock().unwrap().insert(a, h.abort_handle());
                     }
+                }
+            }
+            "sends" => {
+                let a = u(w[1]) as usize;
+                if let Some(c) = ctx.cell(a) {
+                    touch();
+                    let wire = <HMsg as ractor::Message>::serialize(HMsg(u(w[2]))).unwrap();
+                    let r = c.send_serialized(wire);
+                    ctx.log(format!("TSent {a} {} {}", w[2], coq_bool(r.is_ok())));
                 }
             }
             "sendn" => {
@@ -1131,9 +1189,7 @@ async fn run_case(line: &str) -> String {
                                 Ok(Ok(inner)) => {
                                     ctx2.loop_abort.lock().unwrap().insert(a, inner.abort_handle());
                                     ctx2.log(format!("TSpawnRet {a} true"));
-                                    if inner.await.is_ok() {
-                                        ctx2.log(format!("TJoin {a}"));
-                                    }
+                                    ctx2.joined(a, inner.await);
                                 }
                                 Ok(Err(_)) => ctx2.log(format!("TSpawnRet {a} false")),
                                 Err(_) => {}
@@ -1266,6 +1322,12 @@ async fn run_case(line: &str) -> String {
         .filter(|(_, c)| !matches!(c.get_status(), ActorStatus::Stopped | ActorStatus::Unstarted))
         .map(|(a, _)| *a)
         .collect();
+    let mut jp = ctx.join_panic.lock().unwrap().clone();
+    jp.sort();
+    if !jp.is_empty() {
+        let ids: Vec<String> = jp.iter().map(|a| a.to_string()).collect();
+        out.push_str(&format!(" (* JOIN-PANIC {} *)", ids.join(" ")));
+    }
     let bad = ctx.bad_state.lock().unwrap().clone();
     if !bad.is_empty() {
         // read by lib/loopsim.py like SURVIVED-KILL
